@@ -31,6 +31,7 @@ package channelappend
 
 import (
 	"context"
+	"encoding/json"
 	"errors"
 	"fmt"
 	"hash/fnv"
@@ -63,7 +64,9 @@ var c29Items = map[string]c29Item{
 	"a": {name: "a", from: "u1", no: "n1", payload: "P"},
 	"A": {name: "A", from: "u1", no: "n1", payload: "Q"}, // a's key, other payload
 	"b": {name: "b", from: "u1", no: "n2", payload: "P"},
+	"B": {name: "B", from: "u1", no: "n2", payload: "Q"}, // b's key, other payload
 	"c": {name: "c", from: "u2", no: "n1", payload: "P"}, // other sender, a's number: distinct key
+	"C": {name: "C", from: "u2", no: "n1", payload: "Q"}, // c's key, other payload
 	"x": {name: "x", from: "u1", no: "", payload: "P"},   // no client number: never idempotent
 	"z": {name: "z", from: "u1", no: "n7", invalid: true},
 	"k": {name: "k", from: "u2", no: "n9", payload: "P", cancel: true},
@@ -133,6 +136,7 @@ type c29Inst struct {
 	kSub      bool
 	cancelled bool
 	lastReq   string
+	panicked  string // a panic inside the append effect (runAppend turns it into an error completion)
 }
 
 type c29IDs struct{ in *c29Inst }
@@ -361,6 +365,7 @@ func (in *c29Inst) Apply(evl string, env *mc.Env) (string, error) {
 		comp := func() (completion appendCompletedEvent) {
 			defer func() {
 				if recovered := recover(); recovered != nil {
+					in.panicked = fmt.Sprint(recovered)
 					completion = appendPanicCompletion(snapshot, recovered)
 				}
 			}()
@@ -448,6 +453,9 @@ func (in *c29Inst) Canon() string { return "" }
 
 func (in *c29Inst) Check() error {
 	st := in.cfg.stats
+	if in.panicked != "" {
+		return mc.Violatef("C29:append-effect-panicked", "the append effect panicked (%s); channelWriter.runAppend answers every item of the batch with an error", in.panicked)
+	}
 	// the durable log as the oracle sees it: per submitted logical send (identified through the
 	// submitted items, not through what the runtime passed to the port) at most one record
 	origin := map[string]c29Item{}
@@ -551,6 +559,170 @@ func (in *c29Inst) Check() error {
 	return nil
 }
 
+// ---------------------------------------------------------------- focused coalescing section
+
+// c29CoalesceCase runs ONE batch (a string over aAbBcC: 3 keys x 2 payloads) through the real
+// prepare -> newIdempotentAppendBatch -> append effect -> completion path with the faithful
+// appender (no environment deviation) and returns the violation, if any. Besides the general
+// oracle (Check) the outcome is predicted: when no key of the batch carries two payloads the
+// store refuses nothing, so every item must succeed, sends with the same key must share one
+// (id, seq) - a retried send returns the original - and the log holds exactly one record per key.
+func c29CoalesceCase(cfg *c29Cfg, name string) (outcome string, err error) {
+	in := c29New(cfg).(*c29Inst)
+	defer in.Close()
+	for _, e := range []string{"sub:" + name, "adv", "done:0"} {
+		enabled := strings.HasPrefix(e, "sub:") // any batch may be submitted; Events lists menu batches only
+		for _, x := range in.Events() {
+			if x == e {
+				enabled = true
+			}
+		}
+		if !enabled {
+			return "", mc.Violatef("C29:item-without-result-at-quiescence", "batch [%s]: event %s is not enabled (%s)", name, e, in.doneSummary())
+		}
+		if _, err := in.Apply(e, &mc.Env{}); err != nil {
+			return "", err
+		}
+		if err := in.Check(); err != nil {
+			return "", err
+		}
+	}
+	sub := in.subs[0]
+	if !c29FutureDone(sub.future) {
+		return "", mc.Violatef("C29:item-without-result-at-quiescence", "batch [%s] has no complete result vector after its append completed", name)
+	}
+	res := sub.future.snapshot()
+	payloads := map[string]map[string]bool{}
+	for _, it := range sub.items {
+		k := it.from + "/" + it.no
+		if payloads[k] == nil {
+			payloads[k] = map[string]bool{}
+		}
+		payloads[k][it.payload] = true
+	}
+	mixed := false
+	for _, p := range payloads {
+		if len(p) > 1 {
+			mixed = true
+		}
+	}
+	if mixed {
+		// a key reused with another payload inside the batch: the store refuses the request;
+		// the general oracle (no success for the other payload, nothing stored twice) decided
+		return "key-reused-with-other-payload:" + in.doneSummary()[2:], nil
+	}
+	first := map[string]SendResult{}
+	for i, it := range sub.items {
+		r := res[i]
+		if r.Err != nil || r.Result.Reason != ReasonSuccess {
+			return "", mc.Violatef("C29:retried-send-in-batch-not-answered-with-original", "batch [%s] slot %d (%s): %s although the appender never failed and no key carries two payloads (appender saw %s)", name, i, it.name, c29Class(r), in.lastReq)
+		}
+		k := it.from + "/" + it.no
+		if o, ok := first[k]; ok {
+			if o.MessageID != r.Result.MessageID || o.MessageSeq != r.Result.MessageSeq {
+				return "", mc.Violatef("C29:retried-send-in-batch-not-answered-with-original", "batch [%s] slot %d (%s): id=%d seq=%d but the first send of that key got id=%d seq=%d", name, i, it.name, r.Result.MessageID, r.Result.MessageSeq, o.MessageID, o.MessageSeq)
+			}
+		} else {
+			first[k] = r.Result
+		}
+	}
+	if len(in.store) != len(payloads) {
+		return "", mc.Violatef("C29:second-message-stored-for-client-msg-no", "batch [%s]: %d keys but the appender holds %d records", name, len(payloads), len(in.store))
+	}
+	return fmt.Sprintf("all-ok-%d-records", len(in.store)), nil
+}
+
+func c29CoalesceSection(r *ev.R, length int) {
+	const system = "C29-coalescing-batches"
+	cfg := &c29Cfg{name: "coalescing", maxSubs: 1, inflight: 1, stats: &c29Stats{}}
+	if rf := r.Replay(); rf != nil {
+		if rf.System != system {
+			return
+		}
+		var name string
+		if json.Unmarshal(rf.Replay, &name) != nil {
+			return
+		}
+		out, err := c29CoalesceCase(cfg, name)
+		fmt.Printf("replay batch [%s] -> %s %v\n", name, out, err)
+		if err != nil {
+			r.MarkReplayReproduced()
+			r.Violation(ev.Violation{Fingerprint: c29FP(err), Message: err.Error(), System: system, Replay: name})
+		}
+		return
+	}
+	e := r.NewEnum(system)
+	letters := "aAbBcC"
+	idx := make([]int, length)
+	var dupBatches, foldedThenNewRetry int64
+	for {
+		b := make([]byte, length)
+		for i, x := range idx {
+			b[i] = letters[x]
+		}
+		name := string(b)
+		// non-trivial: some key occurs twice; the shape of interest: a second retried key whose
+		// first occurrence comes after an earlier duplicate was already folded
+		seen := map[byte]int{}
+		folded := false
+		dup := false
+		shape := false
+		firstAfterFold := map[byte]bool{}
+		for _, ch := range []byte(strings.ToLower(name)) {
+			if seen[ch] > 0 {
+				dup = true
+				if firstAfterFold[ch] {
+					shape = true
+				}
+				folded = true
+			} else if folded {
+				firstAfterFold[ch] = true
+			}
+			seen[ch]++
+		}
+		out, err := c29CoalesceCase(cfg, name)
+		if err != nil {
+			r.Violation(ev.Violation{Fingerprint: c29FP(err), Message: fmt.Sprintf("%s: %v | batch [%s]", system, err, name), System: system, Replay: name})
+			out = "violation"
+		}
+		if dup {
+			dupBatches++
+		}
+		if shape {
+			foldedThenNewRetry++
+		}
+		if e.Evals()%97 == 0 {
+			r.Sample(map[string]any{"system": system, "batch": name, "observed": out})
+		}
+		e.CaseByConstruction(dup, strings.SplitN(out, ":", 2)[0])
+		k := length - 1
+		for k >= 0 {
+			idx[k]++
+			if idx[k] < len(letters) {
+				break
+			}
+			idx[k] = 0
+			k--
+		}
+		if k < 0 {
+			break
+		}
+	}
+	e.Done(true, map[string]any{"batch_length": length, "alphabet": "3 keys a=(u1,n1) b=(u1,n2) c=(u2,n1) x payload P (lower case) / Q (upper case)", "appender": "faithful reference log, no environment deviation"},
+		"every batch of the stated length over the alphabet, submitted as one SubmitLocal batch to a fresh writer: sub, adv, done; general oracle + predicted outcome")
+	r.Count("coalescing_batches_with_a_repeated_key", dupBatches)
+	r.Count("coalescing_batches_with_a_retried_key_first_seen_after_a_folded_duplicate", foldedThenNewRetry)
+	r.Guard("coalescing-shape-second-retried-key-after-fold", foldedThenNewRetry >= 10, "batches in which a retried key first appears after an earlier duplicate was folded: %d", foldedThenNewRetry)
+	r.Guard("coalescing-all-ok-outcomes", e.Outcome("all-ok-1-records")+e.Outcome("all-ok-2-records")+e.Outcome("all-ok-3-records") >= 50, "fault-free batches answered completely: %d", e.Outcome("all-ok-1-records")+e.Outcome("all-ok-2-records")+e.Outcome("all-ok-3-records"))
+}
+
+func c29FP(err error) string {
+	if f, ok := err.(interface{ Fingerprint() string }); ok {
+		return f.Fingerprint()
+	}
+	return "C29:coalescing-case-failed"
+}
+
 // ---------------------------------------------------------------- test
 
 func TestVerifC29Core(t *testing.T) {
@@ -583,6 +755,8 @@ func TestVerifC29Core(t *testing.T) {
 		add("writer-inflight1", []string{"a", "ba", "aAa", "Fa", "kb"}, 3, 1, 0, 6, 1)
 		add("writer-inflight2-watermark3", []string{"a", "ba", "axa"}, 3, 2, 3, 6, 1)
 	}
+
+	c29CoalesceSection(r, ev.Pick(r, 4, 5))
 
 	total := &c29Stats{}
 	for i := range systems {
